@@ -213,7 +213,7 @@ PROPS = {
         "rule": "(a) generated AutDescriptions (state/symbol names of 1-6 printable ASCII characters without whitespace, ( ) , : and the substring '->'; nullary rules; empty final/symbol/state sections; empty automaton name): "
                 "ParseString(Serialize(d)) == d under the library's relaxed equality, twice, and the same description written by the harness in another textual form (nullary rules with parentheses, missing or re-ordered "
                 "sections, extra blank lines/spaces) parses to the same description; (b) for each of the four encodings: load with a state dictionary, dump, load the dump into a fresh automaton/dictionary, dump again - both dumps "
-                "(read by the harness' own reader) carry the same rules, final states and names, and the first dump carries what was loaded (FA: a start state with several start symbols keeps one); (c) libFuzzer (ASan+UBSan) "
+                "(read by the harness' own reader) carry the same rules, final states and names, and the first dump carries what was loaded (FA: a start state with several start symbols keeps one); for the bottom-up BDD encoding also the \"symbolic\" mode: text -> symbolic dump -> symbolic load -> ordinary dump must give back the named rules; (c) libFuzzer (ASan+UBSan) "
                 "feeds arbitrary bytes to TimbukParser::ParseString and to LoadFromString of all four classes with fresh private alphabets per iteration: only std::exception may escape; successful parses go through (a). "
                 "Non-trivial (a,b): >= 1 nullary and >= 1 non-nullary rule and a state name with punctuation; (c): inputs that parse successfully and reach the transition section are counted separately. Distinct: hash of the case text / of the fuzz input.",
         "assumptions": COMMON_ASSUMPTIONS + ["leaks are not part of the property (detect_leaks=0)", "libFuzzer campaigns are pinned only approximately by -seed/-runs; the saved crash input is the reproducible unit"],
